@@ -84,6 +84,51 @@ theorem C20_whole_input_hashed (m : Bytes) :
   · rw [compressions_eq, words_length _ _ (Nat.le_refl _), pad_length]; omega
   · rw [compressions_eq, pad_length]; omega
 
+
+theorem ofNat_inj256 (a b : Nat) (ha : a < 256) (hb : b < 256) (h : UInt8.ofNat a = UInt8.ofNat b) : a = b := by
+  have := congrArg UInt8.toNat h
+  simp [UInt8.toNat_ofNat'] at this
+  omega
+
+theorem be64_inj (x y : Nat) (h : Sha256.be64 x = Sha256.be64 y) : x % 2^64 = y % 2^64 := by
+  simp only [Sha256.be64, List.map_cons, List.map_nil, List.cons.injEq, and_true] at h
+  obtain ⟨h7, h6, h5, h4, h3, h2, h1, h0⟩ := h
+  have e7 := ofNat_inj256 _ _ (Nat.mod_lt _ (by decide)) (Nat.mod_lt _ (by decide)) h7
+  have e6 := ofNat_inj256 _ _ (Nat.mod_lt _ (by decide)) (Nat.mod_lt _ (by decide)) h6
+  have e5 := ofNat_inj256 _ _ (Nat.mod_lt _ (by decide)) (Nat.mod_lt _ (by decide)) h5
+  have e4 := ofNat_inj256 _ _ (Nat.mod_lt _ (by decide)) (Nat.mod_lt _ (by decide)) h4
+  have e3 := ofNat_inj256 _ _ (Nat.mod_lt _ (by decide)) (Nat.mod_lt _ (by decide)) h3
+  have e2 := ofNat_inj256 _ _ (Nat.mod_lt _ (by decide)) (Nat.mod_lt _ (by decide)) h2
+  have e1 := ofNat_inj256 _ _ (Nat.mod_lt _ (by decide)) (Nat.mod_lt _ (by decide)) h1
+  have e0 := ofNat_inj256 _ _ (Nat.mod_lt _ (by decide)) (Nat.mod_lt _ (by decide)) h0
+  simp only [Nat.reducePow] at *
+  omega
+theorem pad_split (m : Bytes) :
+    Sha256.pad m = (m ++ 0x80 :: List.replicate ((119 - m.length % 64) % 64) 0) ++ Sha256.be64 (8 * m.length) := by
+  simp [Sha256.pad]
+
+/-- the padding is uniquely decodable: two different secrets never have the same padded message, so a
+digest collision can only come from the compression chain, never from the length-padding step -/
+theorem pad_injective (a b : Bytes) (h : Sha256.pad a = Sha256.pad b) : a = b := by
+  have hl := congrArg List.length h
+  rw [pad_length, pad_length] at hl
+  have hd := congrArg (List.drop ((a.length + 72) / 64 * 64 - 8)) h
+  have da : (Sha256.pad a).drop ((a.length + 72) / 64 * 64 - 8) = Sha256.be64 (8 * a.length) := by
+    rw [pad_split]; apply List.drop_left'; simp; omega
+  have db : (Sha256.pad b).drop ((a.length + 72) / 64 * 64 - 8) = Sha256.be64 (8 * b.length) := by
+    rw [pad_split]; apply List.drop_left'; simp; omega
+  rw [da, db] at hd
+  have hm := be64_inj _ _ hd
+  have hlen : a.length = b.length := by simp only [Nat.reducePow] at hm; omega
+  have ta : (Sha256.pad a).take a.length = a := by rw [pad_split, List.append_assoc]; exact List.take_left'  rfl
+  have tb : (Sha256.pad b).take b.length = b := by rw [pad_split, List.append_assoc]; exact List.take_left' rfl
+  rw [← ta, ← tb, h, hlen]
+
+/-- what a false "equal" verdict would take in the model: two DIFFERENT padded messages whose compression
+chains end in the same state — the padding step itself never merges two secrets -/
+theorem C20_false_equal_needs_chain_collision (a b : Bytes) (_h : secEq a b = true) (hne : a ≠ b) :
+    Sha256.pad a ≠ Sha256.pad b := fun e => hne (pad_injective a b e)
+
 /-! Non-vacuity (kernel-evaluated SHA-256 on small inputs) -/
 example : secEq [0x61] [0x61] = true := C20_refl _
 example : secEq [0x61] [0x62] = false := by decide +kernel
@@ -103,3 +148,6 @@ end C20
 #print axioms C20.compressions_eq
 #print axioms C20.digest_uses_compressions
 #print axioms C20.C20_whole_input_hashed
+#print axioms C20.be64_inj
+#print axioms C20.pad_injective
+#print axioms C20.C20_false_equal_needs_chain_collision
